@@ -12,6 +12,7 @@ import (
 // peers' state (to cancel requests that are queued, to know the head of the queue for the
 // limiter bit) but every choice is drawn from the one PRNG.
 type gen struct {
+	nflood int
 	w      *world
 	r      *vhlib.Rand
 	budget int // remaining 200 ms congestion waits
@@ -220,6 +221,10 @@ func (g *gen) randomOp(k int, congestPct int) {
 	}
 	congest := r.Chance(congestPct)
 	st := hp.p.VerifState()
+	if r.Chance(4) {
+		g.diverse(k)
+		return
+	}
 	x := r.Intn(100)
 	if x >= 63 && x < 93 && (len(st.Upload) == 0 || !st.AmUnchoking) && r.Chance(75) {
 		x = 25 + r.Intn(30) // an idle tick: send a request instead
@@ -278,8 +283,105 @@ func (g *gen) addPeer(fast, info bool, cap int) int {
 		}
 		return 0
 	}
-	g.do("peer %d %d %d", b(fast), b(info), cap)
+	if g.r.Chance(50) {
+		g.do("peer %d %d %d %d", b(fast), b(info), cap, g.r.Intn(4)) // reserved bits: Extended, DHT
+	} else {
+		g.do("peer %d %d %d", b(fast), b(info), cap)
+	}
 	return len(g.w.peers) - 1
+}
+
+// values a remote can advertise as "reqq" in its extended handshake: what WE may send to
+// IT — none of them may move any bound of our upload path
+var reqqValues = []uint32{0, 1, 249, 250, 251, 1000, 100000, 2147483647, 4294967295}
+
+// ext0 sends the remote's extended handshake with the given reqq and random other fields.
+func (g *gen) ext0(k int, reqq uint32) {
+	r := g.r
+	ms := r.PickU32(0, 1, 16384, 100000, 4294967295, uint32(len(g.w.t.Info)))
+	port := r.PickInt(0, 0, 6881, 65535)
+	g.do("msg %d 64 0 Ext0 %d %d %d %d %d %d", k, reqq, ms, r.Intn(2), r.Intn(2), port, r.Intn(4))
+	if k < len(g.w.peers) {
+		g.w.peers[k].gotExt = true
+	}
+}
+
+func (g *gen) bitfield() string {
+	np := g.np()
+	b := make([]byte, (np+7)/8)
+	mode := g.r.Intn(3)
+	for i := 0; i < np; i++ {
+		if mode == 0 || mode == 1 && g.r.Bool() {
+			b[i/8] |= 0x80 >> (i % 8)
+		}
+	}
+	return vhlib.Hex(b)
+}
+
+// diverse sends one message that changes the peer's state outside the upload path
+// (extended handshake, availability, the remote's own choking, Fast-extension hints).
+func (g *gen) diverse(k int) {
+	r := g.r
+	if k >= len(g.w.peers) {
+		return
+	}
+	hp := g.w.peers[k]
+	if !hp.p.VerifState().HasInfo && r.Chance(95) {
+		// availability messages are not accepted before the metadata
+		switch r.Intn(3) {
+		case 0:
+			if !hp.gotExt {
+				g.ext0(k, reqqValues[r.Intn(len(reqqValues))])
+				return
+			}
+			g.do("msg %d 64 0 KeepAlive", k)
+		case 1:
+			g.do("msg %d 64 0 %s", k, []string{"Choke", "Unchoke"}[r.Intn(2)])
+		default:
+			g.do("msg %d 64 0 Interested", k)
+		}
+		return
+	}
+	switch x := r.Intn(12); {
+	case x < 3:
+		if !hp.gotExt || r.Chance(4) { // a second handshake is an error: rarely
+			g.ext0(k, reqqValues[r.Intn(len(reqqValues))])
+		} else {
+			g.do("msg %d 64 0 KeepAlive", k)
+		}
+	case x < 5:
+		g.do("msg %d 64 0 Have %d", k, r.Intn(g.np()))
+	case x < 6:
+		g.do("msg %d 64 0 Bitfield %s", k, g.bitfield())
+	case x < 8:
+		g.do("msg %d 64 0 %s", k, []string{"Choke", "Unchoke"}[r.Intn(2)])
+	case x < 10:
+		if hp.fast || r.Chance(4) { // from a non-Fast peer these are errors: rarely
+			switch r.Intn(4) {
+			case 0:
+				g.do("msg %d 64 0 HaveAll", k)
+			case 1:
+				g.do("msg %d 64 0 HaveNone", k)
+			case 2:
+				g.do("msg %d 64 0 AllowedFast %d", k, r.Intn(g.np()))
+			default:
+				g.do("msg %d 64 0 Suggest %d", k, r.Intn(g.np()))
+			}
+		} else {
+			g.do("msg %d 64 0 KeepAlive", k)
+		}
+	case x < 11:
+		g.do("msg %d 64 0 Interested", k)
+	default:
+		g.do("msg %d 64 0 KeepAlive", k)
+	}
+}
+
+// preamble: state diversity before the upload traffic starts
+func (g *gen) preamble(k int) {
+	for n := g.r.Intn(7); n > 0; n-- {
+		g.diverse(k)
+	}
 }
 
 func (g *gen) unchoked(k int) {
@@ -357,7 +459,26 @@ func (g *gen) tour() {
 	g.do("msg %d 64 0 Request 0 %d 16384", k, g.w.ps)
 	g.do("tick %d 0 1 0 1", k) // tick-short-rej!eof
 	g.do("exit %d", k)
-	// NotInterested whose Choke cannot be written, then the torrent's decisions
+	// the remote advertises a huge reqq (what we may send to IT), then floods: our own
+	// queue limit is still 250
+	k = g.addPeer(true, true, 64)
+	g.ext0(k, 100000)
+	g.do("msg %d 64 0 Have 0", k)
+	g.do("msg %d 64 0 Bitfield %s", k, g.bitfield())
+	g.do("msg %d 64 0 HaveAll", k)
+	g.do("msg %d 64 0 AllowedFast 0", k)
+	g.do("msg %d 64 0 Choke", k)
+	g.do("msg %d 64 0 Unchoke", k)
+	g.unchoked(k)
+	for i := 0; i < 262; i++ {
+		g.do("msg %d 64 0 Request %d %d 16384", k, i%n, 16384*(i%2))
+	}
+	g.do("msg %d 64 0 Ext0 1 0 0 0 0 0", k) // other!dupext
+	g.do("exit %d", k)
+	k = g.addPeer(false, true, 64)
+	g.do("msg %d 64 0 HaveNone", k) // other!nofast
+	g.do("exit %d", k)
+
 	k = g.addPeer(true, true, 64)
 	g.unchoked(k)
 	g.do("msg %d 64 0 Request 0 0 16384", k)
@@ -392,6 +513,9 @@ func (g *gen) normal(death bool) {
 			cap = 0
 		}
 		k := g.addPeer(r.Bool(), !r.Chance(10), cap)
+		if r.Chance(60) {
+			g.preamble(k)
+		}
 		if r.Chance(70) {
 			g.unchoked(k)
 		}
@@ -463,7 +587,10 @@ func (g *gen) soup() {
 	g.setupStore(false)
 	np := 2 + r.Intn(2)
 	for i := 0; i < np; i++ {
-		g.addPeer(r.Bool(), !r.Chance(25), 64)
+		k := g.addPeer(r.Bool(), !r.Chance(25), 64)
+		if r.Chance(60) {
+			g.preamble(k)
+		}
 	}
 	for i := 0; i < 30+r.Intn(90); i++ {
 		k := r.Intn(len(g.w.peers) + 1)
@@ -480,8 +607,21 @@ func (g *gen) flood() {
 	g.setupStore(true)
 	fast := r.Bool()
 	k := g.addPeer(fast, true, 64)
+	// the remote says what it likes about itself first; our queue limit must not move
+	g.nflood++
+	g.ext0(k, reqqValues[(g.nflood+5)%len(reqqValues)])
+	g.preamble(k)
+	if r.Chance(30) { // toggles of interest and of our own choking
+		g.unchoked(k)
+		g.do("msg %d 64 0 NotInterested", k)
+		g.do("unch %d 64 0 0", k)
+	}
 	g.unchoked(k)
 	hp := g.w.peers[k]
+	if hp.errored {
+		g.do("exit %d", k)
+		return
+	}
 	keep := 0
 	if fast && g.budget >= 8 {
 		keep = 2 + r.Intn(3)
